@@ -89,6 +89,13 @@ def ite_(c, a, b):
 _NARY = ("+", "*", "&", "|", "^", "and", "or")
 
 
+def mod_(a, n):
+    """X.mod plus (x mod a) mod b == x mod b when b divides a (constants)"""
+    if n[0] == "c" and n[1] > 0 and a[0] == "mod" and a[2][0] == "c" and a[2][1] > 0 and a[2][1] % n[1] == 0:
+        return mod_(a[1], n)
+    return X.mod(a, n)
+
+
 def build(t, band=None):
     """re-apply the smart constructor of the head of t (children already normal)"""
     k = t[0]
@@ -100,7 +107,7 @@ def build(t, band=None):
     if k == "*":
         return X.mul(*a)
     if k == "mod":
-        return X.mod(a[0], a[1])
+        return mod_(a[0], a[1])
     if k == "div":
         return X.div(a[0], a[1])
     if k == "&":
@@ -121,7 +128,7 @@ def build(t, band=None):
         return X.cmp_(a[0], a[1], a[2])
     if k in ("not", "and", "or"):
         return truth(t)
-    if k in ("idx", "call", "tuple", "red"):
+    if k in ("idx", "call", "tuple", "red", "loop"):
         return t
     raise AnalysisError("term with unknown head %r" % (k,))
 
@@ -299,6 +306,8 @@ def show(t, names=None):
         return "(%s)" % ", ".join(s(x) for x in t[1:])
     if k == "red":
         return "reduce_once(%s, %s)" % (s(t[1]), s(t[2]))
+    if k == "loop":
+        return "<%s computed by a loop from %s>" % (t[1], ", ".join(s(x) for x in t[2:]) or "constants")
     if k == "post":
         return "%s'%s(%s)" % (t[1], t[2], ", ".join(s(x) for x in t[3:]))
     if k == "none":
@@ -443,10 +452,44 @@ class PySym:
     term.  Outcome trees: ('ret', term) | ('fall', env) | ('raise', cls) |
     ('br', cond, outcome, outcome)."""
 
-    def __init__(self, repo, mod, ci=None):
+    def __init__(self, repo, mod, ci=None, loops="error"):
         self.repo, self.mod, self.ci = repo, mod, ci
         self.depth = 0
         self.effects = []
+        self.loops = loops       # "havoc": what a loop assigns becomes an opaque ('loop', name, inputs...) term
+
+    def _havoc(self, st, env):
+        """a loop whose only effect is to assign locals / attributes: each
+        assigned target becomes an opaque term over what the loop reads"""
+        targets, reads = [], []
+        own = []
+        if isinstance(st, ast.For):
+            own = [x.id for x in ast.walk(st.target) if isinstance(x, ast.Name)]
+        for n in ast.walk(st):
+            if isinstance(n, (ast.Return, ast.Raise, ast.Yield, ast.YieldFrom, ast.Try, ast.With, ast.FunctionDef, ast.Lambda,
+                              ast.Global, ast.Nonlocal, ast.Delete)):
+                raise AnalysisError("forward substitution: loop with %s is outside the vocabulary (line %d)" % (
+                    type(n).__name__, st.lineno))
+            if isinstance(n, ast.Expr) and not isinstance(n.value, ast.Constant):
+                raise AnalysisError("forward substitution: loop with an expression statement is outside the vocabulary: %s" % canon(n)[:60])
+            if isinstance(n, (ast.Assign, ast.AugAssign)):
+                for t in (n.targets if isinstance(n, ast.Assign) else [n.target]):
+                    for x in ([t] if not isinstance(t, (ast.Tuple, ast.List)) else t.elts):
+                        if not isinstance(x, (ast.Name, ast.Attribute)):
+                            raise AnalysisError("forward substitution: loop stores through `%s`" % canon(x)[:60])
+                        k = x.id if isinstance(x, ast.Name) else ast.unparse(x)
+                        if k not in targets and k not in own:
+                            targets.append(k)
+        for n in ast.walk(st):
+            if isinstance(n, (ast.Name, ast.Attribute)) and isinstance(n.ctx, ast.Load):
+                k = n.id if isinstance(n, ast.Name) else ast.unparse(n)
+                if k in own or k in reads:
+                    continue
+                if k in env or (isinstance(n, ast.Attribute) and isinstance(n.value, ast.Name) and n.value.id == "self"):
+                    reads.append(k)
+        ins = tuple(env.get(k, V(k)) for k in reads)
+        for k in targets + own:
+            env[k] = ("loop", "%s@%d" % (k, st.lineno)) + ins
 
     def const(self, e):
         if isinstance(e, (ast.Name, ast.Attribute, ast.BinOp, ast.UnaryOp, ast.Constant)):
@@ -534,6 +577,9 @@ class PySym:
                 return ("br", c, self._cont(oT, rest), self._cont(oF, rest))
             if isinstance(st, ast.Expr):
                 self.effects.append(self.lower(st.value, env))
+                continue
+            if isinstance(st, (ast.For, ast.While)) and self.loops == "havoc":
+                self._havoc(st, env)
                 continue
             raise AnalysisError("forward substitution: Python statement outside the vocabulary: %s" % canon(st)[:60])
         return ("fall", env)
@@ -673,6 +719,7 @@ class CSym:
         self.depth = 0
         self.effects = []      # (path, callee, args)
         self.path = []
+        self.opaque_calls = set()
 
     def lower(self, n, env):
         # env is mutated by side effects of the expression
@@ -693,8 +740,16 @@ class CSym:
             if len(ps) != len(args):
                 raise AnalysisError("forward substitution (C): cannot bind the arguments of %s()" % name)
             self.depth += 1
+            saved = (list(self.effects), list(self.path))
             try:
                 out = self.block([self.tu.body(f)], dict(zip(ps, args)))
+            except AnalysisError:
+                # e.g. a loop: a value-only helper stays an opaque function of its arguments
+                self.effects[:], self.path[:] = saved
+                if self.value_only(f):
+                    self.opaque_calls.add(name)
+                    return ("call", name) + tuple(args)
+                raise
             finally:
                 self.depth -= 1
             return self.result(out)
@@ -713,6 +768,26 @@ class CSym:
             for k in keys:
                 lw.env[k] = ("post", name, k.split("->", 1)[1]) + tuple(args)
         return ("call", name) + tuple(args)
+
+    def value_only(self, f):
+        """integer parameters, touches nothing but its own locals/parameters, calls nothing"""
+        own = {p.get("id") for p in self.tu.fparams(f)}
+        for n in walk(self.tu.body(f)):
+            if kind(n) == "VarDecl":
+                own.add(n.get("id"))
+        for p in self.tu.fparams(f):
+            if "*" in p.get("type", {}).get("qualType", "") or "[" in p.get("type", {}).get("qualType", ""):
+                return False
+        for n in walk(self.tu.body(f)):
+            k = kind(n)
+            if k in ("CallExpr", "MemberExpr", "ArraySubscriptExpr", "GotoStmt", "AsmStmt", "GCCAsmStmt"):
+                return False
+            if k == "UnaryOperator" and n.get("opcode") in ("*", "&"):
+                return False
+            if k == "DeclRefExpr" and n.get("referencedDecl", {}).get("kind") in ("VarDecl", "ParmVarDecl") and \
+                    n.get("referencedDecl", {}).get("id") not in own:
+                return False
+        return True
 
     def run(self, f, env=None):
         return self.block([self.tu.body(f)], dict(env or {}))
@@ -828,30 +903,79 @@ _CINT = {"int": (-(1 << 31), (1 << 31) - 1), "unsigned int": (0, (1 << 32) - 1),
          "short": (-32768, 32767)}
 
 
-def craw(tu, n, rng):
-    """mathematical interval of a C integer expression, or None when it may
-    leave the range of its type (wrap-around) or is not understood.  `rng`
-    maps canonical lvalue text to (lo, hi)."""
+class Wrap:
+    """the mathematical value of a C expression can leave the range of its type"""
+
+    def __init__(self, lo, hi, qt, text):
+        self.lo, self.hi, self.qt, self.text = lo, hi, qt, text
+
+    def __str__(self):
+        return "%s can take values in %s, outside its type %s" % (self.text, ivtxt((self.lo, self.hi)), self.qt)
+
+
+def single_def_locals(tu, f):
+    """declId -> initialiser of the locals of f that are initialised at
+    their declaration and never written again (nor have their address taken)"""
+    inits, dirty = {}, set()
+    for n in walk(tu.body(f)):
+        k = kind(n)
+        if k == "VarDecl" and n.get("init") and kids(n):
+            inits[n.get("id")] = n
+        elif (k == "BinaryOperator" and n.get("opcode") == "=") or k == "CompoundAssignOperator" or \
+                (k == "UnaryOperator" and n.get("opcode") in ("++", "--", "&")):
+            t = strip(kids(n)[0])
+            if kind(t) == "DeclRefExpr":
+                dirty.add(t.get("referencedDecl", {}).get("id"))
+    return {i: d for i, d in inits.items() if i not in dirty}
+
+
+def _fit(iv, n, text):
+    qt = n.get("type", {}).get("qualType", "").replace("const ", "").replace("volatile ", "").strip()
+    tr = _CINT.get(qt)
+    if tr is None:
+        return None
+    if iv[0] < tr[0] or iv[1] > tr[1]:
+        return Wrap(iv[0], iv[1], qt, text)
+    return iv
+
+
+def craw(tu, n, rng, loc=None):
+    """Mathematical interval (lo, hi) of a C integer expression evaluated in
+    its own (promoted) types; a Wrap object when some sub-expression can
+    leave the range of its type; None when the expression is not understood.
+    `rng` maps canonical lvalue text to (lo, hi); `loc` (single_def_locals)
+    lets values flow through initialised-once temporaries in their declared
+    type."""
     if kind(n) in ("ParenExpr", "ConstantExpr"):
-        return craw(tu, kids(n)[0], rng)
+        return craw(tu, kids(n)[0], rng, loc)
     if kind(n) in ("ImplicitCastExpr", "CStyleCastExpr"):
-        iv = craw(tu, kids(n)[0], rng)
-        if iv is None:
-            return None
+        iv = craw(tu, kids(n)[0], rng, loc)
+        if iv is None or isinstance(iv, Wrap):
+            return iv
         if n.get("castKind") in ("LValueToRValue", "NoOp"):
             return iv
-        tr = _CINT.get(n.get("type", {}).get("qualType", "").replace("const ", ""))
-        if tr is None or iv[0] < tr[0] or iv[1] > tr[1]:
-            return None
-        return iv
+        return _fit(iv, n, ctext(n))
     v = tu.fold(n)
     if v is not None:
         return (v, v)
     k = kind(n)
     if k in ("DeclRefExpr", "MemberExpr"):
-        return rng.get(ctext(n))
+        t = ctext(n)
+        if t in rng:
+            return rng[t]
+        if k == "DeclRefExpr" and loc:
+            d = loc.get(n.get("referencedDecl", {}).get("id"))
+            if d is not None:
+                iv = craw(tu, kids(d)[-1], rng, loc)
+                if iv is None or isinstance(iv, Wrap):
+                    return iv
+                return _fit(iv, d, t)       # stored in the temporary's declared type
+        return None
     if k == "BinaryOperator":
-        a, b = (craw(tu, x, rng) for x in kids(n))
+        a, b = (craw(tu, x, rng, loc) for x in kids(n))
+        for x in (a, b):
+            if isinstance(x, Wrap):
+                return x
         if a is None or b is None:
             return None
         op = n.get("opcode")
@@ -862,19 +986,38 @@ def craw(tu, n, rng):
         elif op == "*":
             c = [a[0] * b[0], a[0] * b[1], a[1] * b[0], a[1] * b[1]]
             iv = (min(c), max(c))
-        elif op == "%" and b[0] > 0 and a[0] >= 0:
-            iv = (0, min(a[1], b[1] - 1))
+        elif op == "%" and b[0] > 0:
+            # C remainder: sign of the dividend
+            iv = (0, min(a[1], b[1] - 1)) if a[0] >= 0 else (max(a[0], -(b[1] - 1)), min(max(a[1], 0), b[1] - 1))
         elif op == "/" and b[0] > 0 and a[0] >= 0:
             iv = (a[0] // b[1], a[1] // b[0])
         elif op == "&" and a[0] >= 0 and b[0] >= 0:
             iv = (0, min(a[1], b[1]))
         else:
             return None
-        tr = _CINT.get(n.get("type", {}).get("qualType", "").replace("const ", ""))
-        if tr is None or iv[0] < tr[0] or iv[1] > tr[1]:
-            return None
-        return iv
+        return _fit(iv, n, ctext(n))
     return None
+
+
+def craw_txt(iv):
+    if iv is None:
+        return "not bounded by the analysis"
+    if isinstance(iv, Wrap):
+        return str(iv)
+    return ivtxt(iv)
+
+
+def dividend_ob(L, rule, file, func, tu, n, key, required, iv):
+    """obligation on the dividend of a C / or %: provably >= 0 and not
+    wrapping -> ok; provably possibly negative / wrapping -> violation;
+    not understood -> no verdict (unless a violation is already recorded)"""
+    if iv is None:
+        if any(not o.ok for o in L.obs):
+            L.extra.setdefault("undecided", []).append(key)
+            return
+        raise AnalysisError("%s(): cannot bound `%s` (line %s); the non-negativity argument for C division/remainder is "
+                            "unclassifiable" % (func, ctext(n)[:60], tu.line(n)))
+    L.ob(rule, file, func, key, required, craw_txt(iv), not isinstance(iv, Wrap) and iv[0] >= 0, tu.line(n))
 
 
 # ------------------------------------------------------------------------------
@@ -911,15 +1054,14 @@ def c_decomposition(L, rule):
     # C division / remainder: floor semantics need a non-negative dividend that does not wrap
     rng = {fnname: (0, HYPERFRAME - 1), "%s->fn" % tname: (0, HYPERFRAME - 1)}
     ndiv = 0
+    loc = single_def_locals(tu, f)
     for n in walk(tu.body(f)):
         if kind(n) == "BinaryOperator" and n.get("opcode") in ("/", "%"):
             ndiv += 1
-            iv = craw(tu, kids(n)[0], rng)
-            L.ob(rule, F_UTILS, fname,
-                 "C `%s`: dividend `%s` is non-negative and does not wrap for FN in 0..2715647 (so / and %% are floor division / remainder)" % (
-                     n.get("opcode"), ctext(kids(n)[0])),
-                 ">= 0, within its type", ivtxt(iv) if iv else "may be negative or wrap (type %s)" % n.get("type", {}).get("qualType"),
-                 iv is not None and iv[0] >= 0, tu.line(n))
+            iv = craw(tu, kids(n)[0], rng, loc)
+            dividend_ob(L, rule, F_UTILS, fname, tu, kids(n)[0],
+                        "C `%s`: dividend `%s` is non-negative and does not wrap for FN in 0..2715647 (so / and %% are floor division / remainder)" % (
+                            n.get("opcode"), ctext(kids(n)[0])), ">= 0, within its type", iv)
     return tu, f, comp, ndiv
 
 
@@ -942,13 +1084,26 @@ def py_decomposition(L, repo, rule):
     return fd, dict(zip(("t1", "t2", "t3", "tc"), res[1:]))
 
 
-def r1_decomposition(L, repo, rule="C19.R1"):
-    """decomposition agreement; returns the moduli found (for R3) and both component maps"""
+def r1_decomposition(L, repo, rule="C19.R1", hopping_only=False):
+    """decomposition agreement; returns the moduli found (for R3) and both component maps.
+    hopping_only: compare only what TS 45.002 6.2.3 consumes (T1 mod 64, T2, T3)."""
     want = spec_decomposition(V("FN"))
     tu, f, cc, ndiv = c_decomposition(L, rule)
     fd, pc = py_decomposition(L, repo, rule)
     n = 0
     L.require(rule, F_UTILS, "gsm_fn2gsmtime", "time->fn = FN (the frame number given)", "FN", show(cc["fn"]), line=tu.line(f))
+    if hopping_only:
+        for (file, func, comp, line) in ((F_UTILS, "gsm_fn2gsmtime", cc, tu.line(f)), (F_GSM, "HoppingParams.fn2gsm_time", pc, fd.lineno)):
+            n += 3
+            for fld, w, txt in (("t1", mod_(want["t1"], C(64)), "T1 mod 64 = (FN div 1326) mod 64"),
+                                ("t2", want["t2"], "T2 = FN mod 26"), ("t3", want["t3"], "T3 = FN mod 51")):
+                got = renorm(mod_(comp[fld], C(64))) if fld == "t1" else comp[fld]
+                d = diff(got, w)
+                L.ob(rule, file, func, "%s (TS 45.002 4.3.3; what the hopping formula consumes)" % txt, show(w),
+                     show(got) if not d else "%s -- differs in %s (specification: %s)" % (
+                         show(got), "; ".join(show(a) for a, b in d), "; ".join(show(b) for a, b in d)), not d, line)
+        L.floor(rule, "component expressions (C + Python)", n, 6)
+        return {}, cc, pc, tu
     for fld in ("t1", "t2", "t3", "tc"):
         for (side, file, func, got, line) in (("C", F_UTILS, "gsm_fn2gsmtime", cc[fld], tu.line(f)),
                                                ("Python", F_GSM, "HoppingParams.fn2gsm_time", pc[fld], fd.lineno)):
@@ -1005,23 +1160,26 @@ def r2_recomposition(L, tu):
     rng = {"%s->t1" % p: (0, 2047), "%s->t2" % p: (0, 25), "%s->t3" % p: (0, 50), "%s->tc" % p: (0, 7),
            "%s->fn" % p: (0, HYPERFRAME - 1)}
     nrem = 0
+    loc = single_def_locals(tu, f)
     for n in walk(tu.body(f)):
         if kind(n) == "BinaryOperator" and n.get("opcode") in ("%", "/"):
             nrem += 1
-            iv = craw(tu, kids(n)[0], rng)
-            L.ob(rule, F_UTILS, fname,
-                 "C `%s`: dividend `%s` is non-negative for t3 <= 50, t2 <= 25 after integer promotion (C remainder truncates toward zero; "
-                 "the +26 bias is what makes (T3 - T2) mod 26 a true modulo)" % (n.get("opcode"), ctext(kids(n)[0])),
-                 ">= 0, no wrap-around", ivtxt(iv) if iv else "negative or wrapping values possible (type %s)" % (
-                     kids(n)[0].get("type", {}).get("qualType")),
-                 iv is not None and iv[0] >= 0, tu.line(n))
+            iv = craw(tu, kids(n)[0], rng, loc)
+            dividend_ob(L, rule, F_UTILS, fname, tu, kids(n)[0],
+                        "C `%s`: dividend `%s` is non-negative for t3 <= 50, t2 <= 25 after integer promotion (C remainder truncates toward "
+                        "zero; the +26 bias is what makes (T3 - T2) mod 26 a true modulo)" % (n.get("opcode"), ctext(kids(n)[0])),
+                        ">= 0, no wrap-around", iv)
     L.floor(rule, "remainder operations in gsm_gsmtime2fn", nrem, 1)
     whole = None
     for n in walk(tu.body(f)):
         if kind(n) == "ReturnStmt" and kids(n):
-            whole = craw(tu, kids(n)[0], rng)
+            whole = craw(tu, kids(n)[0], rng, loc)
+            if whole is None:
+                # not understood (e.g. a re-assigned temporary): no verdict on this auxiliary clause
+                L.extra.setdefault("undecided", []).append("overflow of the recomposed sum in gsm_gsmtime2fn")
+                continue
             L.ob(rule, F_UTILS, fname, "the recomposed sum does not overflow its C type", "no wrap-around",
-                 ivtxt(whole) if whole else "may wrap", whole is not None, tu.line(n))
+                 craw_txt(whole), not isinstance(whole, Wrap), tu.line(n))
 
 
 # ------------------------------------------------------------------------------
